@@ -73,10 +73,17 @@ theorem calls_ok_full_false :
   cases this
 
 /-- non-vacuity: the hypotheses hold on a concrete world (schema with an edge, a tag imported into
-a fold) -/
-example : WFq Witness.F10.ir = true ∧ SchemaOK Witness.F10.S Witness.F10.ir = true ∧
-    ArgsOK Witness.F10.ir Witness.F10.args = true ∧ Conforms Witness.F10.S Witness.F10.D = true :=
-  Witness.F10.hyps
+a fold — the IR the frontend produces since the fix of F-10: the tag is imported once) -/
+example : WFq Witness.F10.irFixed = true ∧ SchemaOK Witness.F10.S Witness.F10.irFixed = true ∧
+    ArgsOK Witness.F10.irFixed Witness.F10.args = true ∧
+    Conforms Witness.F10.S Witness.F10.D = true :=
+  ⟨Witness.F10.hyps.1, Witness.F10.hyps.2.1, Witness.F10.hyps.2.2.1, Witness.F10.hyps.2.2.2.1⟩
+
+/-- … and on a world where a fold with a count filter sits below a missing `@optional` vertex (the
+fold expansion and the filter stage run with no active vertex; F-9 regression world) -/
+example : WFq Witness.F9.ir = true ∧ SchemaOK Witness.F9.S Witness.F9.ir = true ∧
+    ArgsOK Witness.F9.ir Witness.F9.args = true ∧ Conforms Witness.F9.S Witness.F9.D = true :=
+  ⟨Witness.F9.hyps.1, Witness.F9.hyps.2.1, Witness.F9.hyps.2.2.1, Witness.F9.hyps.2.2.2.1⟩
 
 end TF.C21
 
